@@ -248,8 +248,10 @@ def run_impl(text):
     try:
         tree = parser.parse(text, bypass_cache=True)
     except Exception as e:  # classified, never escapes
-        args = [a for a in getattr(e, "args", ()) if isinstance(a, str)]
-        return {"outcome": "error", "exc": type(e).__name__, "args": args}, None
+        # only the class of the failure and the text as a whole are kept: the property says "rejected",
+        # the wording / layout of the message is the implementation's business
+        return {"outcome": "error", "exc": type(e).__name__, "oserror": isinstance(e, OSError),
+                "message": " ".join(str(a) for a in getattr(e, "args", ()))}, None
     if tree is None:
         return {"outcome": "syntax-error"}, None
     ids = IdNumbering()
@@ -612,10 +614,13 @@ def check_case(ctx, case, drv):
         ctx.tie_broken("model:listener-differs-from-expected", {"case": case, "listener": ans.get("result"), "spec": ans.get("spec")})
     m = ans["result"]
     if m["outcome"] == "error":
-        mi = {"outcome": "error", "exc": "OSError", "args": [m["name"], {"alreadyDefined": "already defined",
-                                                                         "alreadyImported": "already imported"}.get(m["err"], m["err"])]}
-        if impl != mi:
-            ctx.disagreement("asm.run", case, mi, impl if impl["outcome"] != "ok" else {"outcome": "ok"})
+        # the model says the listener rejects the file (IOError) because of `name`: the implementation must
+        # reject it with an OSError; the name should occur somewhere in its message (format not compared)
+        want = {"outcome": "error", "exc": "an OSError (IOError)", "because-of": m["name"], "kind": m["err"]}
+        if impl["outcome"] != "error" or not impl.get("oserror"):
+            ctx.disagreement("asm.run", case, want, impl if impl["outcome"] != "ok" else {"outcome": "ok"})
+        elif m["name"] not in impl.get("message", ""):
+            ctx.count("rejected-but-message-does-not-name-the-component")
         return
     if impl["outcome"] != "ok":
         ctx.disagreement("asm.run", case, {"outcome": "ok"}, impl)
